@@ -121,15 +121,38 @@ static void case_fn(uint64_t idx, void *ctx)
         check_all(k, c.len, seed, "key starts right after a PROT_NONE page", shape, exp);
     }
     /* (4) the 32-bit-word variant: word-aligned keys, length counted in words */
-    if (c.len % 4 == 0 && c.align % 4 == 0) {
+    if (c.len % 4 == 0) {           /* every alignment: the key is a byte pointer; the words are whatever 4 bytes lie there */
         int words = c.len / 4; uint32_t w[128]; memcpy(w, ref, (size_t) c.len);
         uint32_t e = ref_lookup2_words(w, (uint32_t) words, seed);
-        uint8_t *blk = malloc((size_t) c.len ? (size_t) c.len : 1); memcpy(blk, ref, (size_t) c.len);
-        uint32_t g = spifhash_jenkins32(blk, (spif_uint32_t) words, seed);
-        if (g != e) FAIL("spifhash_jenkins32", "model:value", shape, "got 0x%08x, reference 0x%08x (%d words)", g, e, words);
+        uint8_t *blk = malloc((size_t) (c.len + c.align) ? (size_t) (c.len + c.align) : 1); memcpy(blk + c.align, ref, (size_t) c.len);
+        uint32_t g = spifhash_jenkins32(blk + c.align, (spif_uint32_t) words, seed);
+        if (g != e) FAIL("spifhash_jenkins32", "model:value", shape, "got 0x%08x, reference 0x%08x (%d words, alignment %d)", g, e, words, c.align);
         free(blk);
     }
     if (c.len) mc_nontrivial();
+    mc_outcome(((uint64_t) exp[0] << 32) | exp[4]);
+}
+/* long keys: lengths around 4096 and 8192 bytes (1024 / 2048 words) and beyond, every alignment */
+static const int BIGLEN[] = { 4080, 4092, 4096, 4100, 4104, 4108, 8180, 8192, 8196, 12288, 12300, 20004 };
+#define NBIGLEN ((int) (sizeof BIGLEN / sizeof BIGLEN[0]))
+static void big_desc(uint64_t idx, void *ctx, char *b, size_t n) { (void) ctx; snprintf(b, n, "all six hashes on a %d-byte key (counting bytes), alignment %d, seed 0x%08x", BIGLEN[idx / 16], (int) (idx % 8), SEEDS[(idx / 8) % 2 ? 2 : 0]); }
+static void big_case(uint64_t idx, void *ctx)
+{
+    int len = BIGLEN[idx / 16], align = (int) (idx % 8); uint32_t seed = SEEDS[(idx / 8) % 2 ? 2 : 0]; (void) ctx;
+    uint8_t *ref = malloc((size_t) len + 8); for (int i = 0; i < len; i++) ref[i] = (uint8_t) (i * 37 + 11 + i / 251);
+    char shape[48]; snprintf(shape, sizeof shape, "long key, len%%12=%d", len % 12); mc_set_shape(shape);
+    uint32_t exp[5] = { ref_lookup2(ref, (uint32_t) len, seed), 0, ref_rotating(ref, (uint32_t) len, seed), ref_oaat(ref, (uint32_t) len, seed), ref_fnv1a(ref, (uint32_t) len, seed) };
+    exp[1] = exp[0];
+    uint8_t *blk = malloc((size_t) (len + align)); memcpy(blk + align, ref, (size_t) len);
+    check_all(blk + align, len, seed, "heap block, key ends at the redzone", shape, exp);
+    { int words = len / 4; uint32_t *w = malloc((size_t) len + 4); memcpy(w, ref, (size_t) len);
+      uint32_t e = ref_lookup2_words(w, (uint32_t) words, seed);
+      uint8_t *b2 = malloc((size_t) (words * 4 + align)); memcpy(b2 + align, ref, (size_t) words * 4);
+      uint32_t g = spifhash_jenkins32(b2 + align, (spif_uint32_t) words, seed);
+      if (g != e) FAIL("spifhash_jenkins32", "model:value", shape, "got 0x%08x, reference 0x%08x (%d words, alignment %d)", g, e, words, align);
+      free(b2); free(w); }
+    free(blk); free(ref);
+    mc_nontrivial();
     mc_outcome(((uint64_t) exp[0] << 32) | exp[4]);
 }
 /* all 1- and 2-byte keys */
@@ -158,9 +181,10 @@ int main(int argc, char **argv)
     g_page = sysconf(_SC_PAGESIZE);
     g_guard = mmap(NULL, (size_t) g_page * 3, PROT_READ | PROT_WRITE, MAP_PRIVATE | MAP_ANONYMOUS, -1, 0);
     mprotect(g_guard, (size_t) g_page, PROT_NONE); mprotect(g_guard + 2 * g_page, (size_t) g_page, PROT_NONE);
-    mc_info("alphabet", "length 0..%d x alignment 0..7 x seeds {0,1,0xf721b64d,0xffffffff} x patterns {all 00, all FF, counting, each single byte = 0x01 / 0x80}; jenkins32 on word-aligned keys; %s",
+    mc_info("alphabet", "length 0..%d x alignment 0..7 x seeds {0,1,0xf721b64d,0xffffffff} x patterns {all 00, all FF, counting, each single byte = 0x01 / 0x80}; jenkins32 on keys whose length is a multiple of 4 (every alignment); long keys of 4080..20004 bytes x 8 alignments; %s",
             MAXLEN, mc_thorough() ? "all 1- and 2-byte keys" : "all 1-byte keys");
     mc_e2_level("hash", MAXLEN, count_for(MAXLEN), case_fn, desc, NULL);
+    mc_e2_level("longkeys", 20004, (uint64_t) NBIGLEN * 16, big_case, big_desc, NULL);
     mc_e2_level("smallkeys", mc_thorough() ? 2 : 1, mc_thorough() ? 256 + 65536 : 256, small_case, small_desc, NULL);
     return mc_finish();
 }
